@@ -187,7 +187,9 @@ class Client:
                 raise Response(m.group(1), m.group(2))
         return ret
 
-    def __read_response(self, nblines: int = -1) -> Tuple[bytes, bytes, bytes]:
+    def __read_response(
+        self, nblines: int = -1, quote_literals: bool = False
+    ) -> Tuple[bytes, bytes, bytes]:
         """Read a response from the server.
 
         In the usual case, we read lines until we find one that looks
@@ -196,6 +198,9 @@ class Client:
         If *nblines* > 0, we read excactly nblines before returning.
 
         :param nblines: number of lines to read (default : -1)
+        :param quote_literals: insert literals into the response as
+                               quoted strings, so that they can be
+                               told from the text that surrounds them
         :rtype: tuple
         :return: a tuple of the form (code, data, response). If
         nblines is provided, code and data can be equal to None.
@@ -210,7 +215,10 @@ class Client:
                 data = inst.data
                 break
             except Literal as inst:
-                resp += self.__read_block(inst.value)
+                block = self.__read_block(inst.value)
+                if quote_literals:
+                    block = self.__quote(block)
+                resp += block
                 if not resp.endswith(CRLF):
                     resp += self.__read_line() + CRLF
                 continue
@@ -222,6 +230,14 @@ class Client:
                 break
 
         return (code, data, resp)
+
+    def __quote(self, value: bytes) -> bytes:
+        """Return value as a quoted string."""
+        return b'"' + value.replace(b"\\", b"\\\\").replace(b'"', b'\\"') + b'"'
+
+    def __unquote(self, value: bytes) -> bytes:
+        """Return the content of a quoted string (without its quotes)."""
+        return re.sub(rb"\\(.)", rb"\1", value, flags=re.DOTALL)
 
     def __prepare_args(self, args: List[Any]) -> List[bytes]:
         """Format command arguments before sending them.
@@ -242,8 +258,7 @@ class Client:
                 if b"\r" in a or b"\n" in a or b"\0" in a:
                     ret += [b"{%d+}%s%s" % (len(a), CRLF, a)]
                 else:
-                    a = a.replace(b"\\", b"\\\\").replace(b'"', b'\\"')
-                    ret += [b'"' + a + b'"']
+                    ret += [self.__quote(a)]
             else:
                 ret += [bytes(str(a).encode("utf-8"))]
         return ret
@@ -267,6 +282,7 @@ class Client:
         withcontent: bool = False,
         extralines: Optional[List[bytes]] = None,
         nblines: int = -1,
+        quote_literals: bool = False,
     ) -> Tuple[str, str, bytes]:
         """Send a command to the server.
 
@@ -283,6 +299,8 @@ class Client:
                             or not
         :param extralines: a list of extra lines to sent after the command
         :param nblines: the number of response lines to read (all by default)
+        :param quote_literals: return literals found in the response as
+                               quoted strings
 
         :returns: a tuple of the form (code, data[, response])
 
@@ -295,7 +313,7 @@ class Client:
         if extralines:
             for l in extralines:
                 self.sock.sendall(l + CRLF)
-        code, data, content = self.__read_response(nblines)
+        code, data, content = self.__read_response(nblines, quote_literals)
 
         if isinstance(code, bytes):
             code = code.decode("utf-8")
@@ -360,7 +378,7 @@ class Client:
             if strict:
                 raise Error("Bad error message")
             return (code, b"")
-        return (code, re.sub(rb"\\(.)", rb"\1", m.group(1), flags=re.DOTALL))
+        return (code, self.__unquote(m.group(1)))
 
     def __parse_error(self, text: Optional[bytes]):
         """Parse an error received from the server.
@@ -655,20 +673,20 @@ class Client:
 
         :returns: a 2-uple (active script, [script1, ...])
         """
-        code, data, listing = self.__send_command("LISTSCRIPTS", withcontent=True)
+        code, data, listing = self.__send_command(
+            "LISTSCRIPTS", withcontent=True, quote_literals=True
+        )
         if code == "NO":
             return None
         ret: List[str] = []
         active_script: str = None
         for l in listing.splitlines():
-            if self.__size_expr.match(l):
-                continue
-            m = re.match(rb'"([^"]+)"\s*(.+)', l)
+            m = self.__quoted_expr.match(l)
             if m is None:
                 ret += [l.strip(b'"').decode("utf-8")]
                 continue
-            script = m.group(1).decode("utf-8")
-            if self.__active_expr.match(m.group(2)):
+            script = self.__unquote(m.group(1)).decode("utf-8")
+            if self.__active_expr.match(l[m.end() :].strip()):
                 active_script = script
                 continue
             ret += [script]
